@@ -4,15 +4,7 @@ import vlib
 import c04_gen
 
 # Findings of this check that are reported to the lead but not yet listed in known_findings.json.  Listed ones take precedence.
-PENDING_KNOWN = {
-    'claim-window:queued-frame-flushed':
-        'pending: property=C04 a frame that was queued under driver back-pressure while its device was entitled is handed to the driver by a later SendFrames '
-        '(start of ParseMessages, inside every SendFrame incl. the one carrying the address claim) while that device\'s address claim is pending, '
-        'carrying the address the device announced or has just lost (D-05); witness replays/corpus/C04/d05-queued-frame-in-claim-window.case',
-    'former-address:queued-frame-flushed':
-        'pending: property=C04 same root cause as claim-window:queued-frame-flushed (the send queue is neither purged nor re-addressed when a device changes its address): '
-        'the queued frame leaves after the claim window with an address that is no longer ours',
-}
+PENDING_KNOWN = {}
 
 
 def known(case, what):
